@@ -17,17 +17,17 @@ func init() {
 	register(&Property{
 		ID:        "C04",
 		Title:     "IP set contents equal the addresses selected by the rule",
-		Technique: "static analysis: shape + cut-set guard analysis of every reference-count write, who-may-call of the raw member callbacks against the overlap suppressor's results, backward value slices of member keys; path-fact exploration of the scan-strategy selection; prefix-length dependence slices of the ip.CIDRTrie queries behind the suppressor (go/ssa over felix/labelindex and felix/ip)",
+		Technique: "static analysis: shape + cut-set guard analysis of every reference-count write, role attribution of the raw member callbacks against the overlap suppressor's results (backward value slices through helpers and closures), who-may-call of the wrappers and raw callbacks, backward value slices of member keys; path-fact exploration of the scan-strategy selection; prefix-length dependence slices of the ip.CIDRTrie queries behind the suppressor (go/ssa over felix/labelindex and felix/ip)",
 		DesignRef: "DESIGN.md §3 C04",
 		Explanation: "Decides the reference-counting and overlap-suppression discipline of SelectorAndNamedPortIndex: (refcount) every write to ipSetData.memberToRefCount is `old+1` executed whenever the count is read, with the add wrapper called exactly on the 0→1 edge, " +
-			"or `old-1` stored exactly when the result is non-zero and otherwise the remove wrapper plus delete of the entry; no other write shape exists; " +
-			"(suppressor) OnMemberAdded/OnMemberRemoved are invoked only inside the wrappers that consult OverlapSuppressor.Add/Remove, with the polarity dictated by the suppressor's results (primary result non-nil → same direction, secondary slice → opposite direction, non-CIDR members pass through); " +
+			"or `old-1` stored exactly when the result is non-zero and otherwise the remove wrapper plus delete of the entry; no other write shape exists; conversely every call of an add (remove) wrapper is made for a member whose count the calling function increments (decrements and deletes), or for every key of a count map; " +
+			"(suppressor) each wrapper that consults OverlapSuppressor.Add/Remove fulfils three roles through the raw OnMemberAdded/OnMemberRemoved callbacks, decided per role through the wrapper's helpers and closures - non-CIDR members pass through unchanged, the wrapper's own member is emitted in its own direction under the suppressor's primary result being non-nil, and the suppressor's secondary results (members newly masked by an added CIDR / re-exposed by a removed one) are emitted in the opposite direction by the raw callback, not through a wrapper that would run them through the suppressor again; the raw callbacks are invoked for nothing else; " +
 			"deleting an IP set also deletes its suppressor state, and memberDeduplicator.DeleteIPSet drops every per-set trie map that getTrie fills; " +
 			"(contribsym) the members that are incremented and those that are decremented are both results of CalculateEndpointContribution (directly or via RecalcCachedContributions); " +
 			"(cached) every increment site first records the IP set id in the endpoint's cached matching-set collection that RecalcCachedContributions later ranges over for the decrement; " +
 			"(candidates) the scan strategy that one label index (endpoint-own or parent) offers for a selector restriction is adopted as the candidate scan (stored, merged, returned, scanned) only where every feasible path has tested the other index's strategy for the same label and restriction to be empty; " +
 			"(trieprefix) every ip.CIDRTrie/CIDRNode function reachable from the overlap suppressor that takes a CIDR lets a branch or result depend on that CIDR's prefix length - not only on Addr()/Version(), which hide it - itself or through the trie function it hands the CIDR to, and a boolean answer true (Covers) is on every path preceded by such a test.",
-		NotDecided: "Membership arithmetic over histories (that counts equal the number of contributing endpoints); functional correctness of ip.CIDRTrie Covers/ClosestDescendants beyond their dependence on the prefix length (hence that emitted members cover exactly the same addresses); that an adopted scan strategy yields a superset of the matching items and the early return when a restriction rules out both indexes (see C07.restrict for the per-leaf half); emptiness tests hidden inside helper functions (the rule then fires: re-confirm); that the set id passed to the wrappers is the id of the ipSetData whose count changed.",
+		NotDecided: "Membership arithmetic over histories (that counts equal the number of contributing endpoints); functional correctness of ip.CIDRTrie Covers/ClosestDescendants beyond their dependence on the prefix length (hence that emitted members cover exactly the same addresses); that an adopted scan strategy yields a superset of the matching items and the early return when a restriction rules out both indexes (see C07.restrict for the per-leaf half); emptiness tests hidden inside helper functions (the rule then fires: re-confirm); that the set id passed to the wrappers is the id of the ipSetData whose count changed; that EVERY element of the suppressor's secondary result is announced (the role obligations require a raw opposite-direction invocation fed only from that result, not the totality of the loop around it); wrappers whose type assertion or suppressor call is moved into a helper that returns the results (the roles then fire: re-confirm).",
 		Assumptions: []string{
 			"go/types + go/ssa (x/tools v0.50.0) model of the current source, CGO_ENABLED=0 build",
 			"Go map semantics for memberToRefCount (missing key reads 0)",
@@ -53,9 +53,19 @@ func init() {
 			{Name: "raw callback bypasses overlap suppression", File: "felix/labelindex/named_port_index.go",
 				Old: "\t\t\t\t\tidx.onMemberAdded(ipSetID, newMember)\n", New: "\t\t\t\t\tidx.OnMemberAdded(ipSetID, newMember)\n", Expect: "C04.suppressor/raw/"},
 			{Name: "suppressed (covered) CIDR still emitted", File: "felix/labelindex/named_port_index.go",
-				Old: "\t\tif add != nil {\n\t\t\tidx.OnMemberAdded(ipSetID, cidrMember)\n\t\t}", New: "\t\tif add == nil {\n\t\t\tidx.OnMemberAdded(ipSetID, cidrMember)\n\t\t}", Expect: "C04.suppressor/raw/"},
+				Old: "\t\tif add != nil {\n\t\t\tidx.OnMemberAdded(ipSetID, cidrMember)\n\t\t}", New: "\t\tif add == nil {\n\t\t\tidx.OnMemberAdded(ipSetID, cidrMember)\n\t\t}", Expect: "C04.suppressor/primary/"},
 			{Name: "previously masked CIDRs removed instead of re-added", File: "felix/labelindex/named_port_index.go",
 				Old: "\t\t\tidx.OnMemberAdded(ipSetID, ipsetmember.MakeCIDROrIPOnly(a))", New: "\t\t\tidx.OnMemberRemoved(ipSetID, ipsetmember.MakeCIDROrIPOnly(a))", Expect: "C04.suppressor/raw/"},
+			{Name: "C02-3: re-exposed CIDRs handed to the add wrapper again instead of the raw callback", File: "felix/labelindex/named_port_index.go",
+				Old: "\t\t\tidx.OnMemberAdded(ipSetID, ipsetmember.MakeCIDROrIPOnly(a))", New: "\t\t\tidx.onMemberAdded(ipSetID, ipsetmember.MakeCIDROrIPOnly(a))", Expect: "C04.suppressor/reexpose/"},
+			{Name: "newly masked CIDRs handed to the remove wrapper again instead of the raw callback", File: "felix/labelindex/named_port_index.go",
+				Old: "\t\t\tidx.OnMemberRemoved(ipSetID, ipsetmember.MakeCIDROrIPOnly(r))", New: "\t\t\tidx.onMemberRemoved(ipSetID, ipsetmember.MakeCIDROrIPOnly(r))", Expect: "C04.suppressor/mask/"},
+			{Name: "non-CIDR (named port) members dropped by the remove wrapper", File: "felix/labelindex/named_port_index.go",
+				Old: "\t\t// No need to de-duplicate.\n\t\tidx.OnMemberRemoved(ipSetID, member)\n", New: "\t\t// No need to de-duplicate.\n", Expect: "C04.suppressor/passthrough/SelectorAndNamedPortIndex.onMemberRemoved"},
+			{Name: "incremented count never stored although the member is announced", File: "felix/labelindex/named_port_index.go",
+				Old: "\t\t\tnewIPSetData.memberToRefCount[member] = refCount + 1\n", New: "", Expect: "C04.refcount/emit-add/SelectorAndNamedPortIndex.UpdateIPSet"},
+			{Name: "decremented count never stored (a shared member is never withdrawn)", File: "felix/labelindex/named_port_index.go",
+				Old: "\t\t\t} else {\n\t\t\t\tipSetData.memberToRefCount[oldMember] = newRefCount\n\t\t\t}\n\t\t}\n\t}\n}\n", New: "\t\t\t}\n\t\t}\n\t}\n}\n", Expect: "C04.refcount/emit-remove/SelectorAndNamedPortIndex.scanEndpointAgainstIPSets"},
 			{Name: "IP set deleted but suppressor state kept", File: "felix/labelindex/named_port_index.go",
 				Old: "\tidx.suppressor.DeleteIPSet(setID)\n", New: "", Expect: "C04.suppressor/delete-ipset"},
 			{Name: "v6 tries leak on IP set deletion", File: "felix/labelindex/named_port_index.go",
@@ -88,6 +98,8 @@ type c04Model struct {
 	pd      map[*ssa.Function]map[*ssa.BasicBlock]map[*ssa.BasicBlock]bool
 	addW    map[*ssa.Function]bool // wrappers consulting suppressor.Add
 	remW    map[*ssa.Function]bool
+	supT    *types.TypeName // OverlapSuppressor
+	idxT    *types.TypeName // SelectorAndNamedPortIndex
 }
 
 func (m *c04Model) postdom(fn *ssa.Function) map[*ssa.BasicBlock]map[*ssa.BasicBlock]bool {
@@ -100,14 +112,27 @@ func (m *c04Model) postdom(fn *ssa.Function) map[*ssa.BasicBlock]map[*ssa.BasicB
 }
 
 func runC04(c *Ctx) {
-	p := c.Load(c04Pkg)
-	c.Rule("C04.refcount", "E-GUARD/E-PAIR", "every write to memberToRefCount is old+1 (always stored; add wrapper exactly on 0→1) or old-1 (stored iff non-zero; else remove wrapper + delete)", 11)
-	c.Rule("C04.suppressor", "E-OWN/E-GUARD", "raw OnMemberAdded/OnMemberRemoved only inside the suppressor wrappers with polarity dictated by OverlapSuppressor results; IP set deletion clears suppressor state and all trie maps", 9)
+	c.Rule("C04.refcount", "E-GUARD/E-PAIR/E-OWN", "every write to memberToRefCount is old+1 (always stored; add wrapper exactly on 0→1) or old-1 (stored iff non-zero; else remove wrapper + delete); conversely every call of an add/remove wrapper sits on such an edge of the same member's count (or withdraws every key of a count map)", 16)
+	c.Rule("C04.suppressor", "E-OWN/E-GUARD/E-FLOW", "each suppressor wrapper fulfils its three roles through the raw callbacks (non-CIDR pass-through; own member iff the suppressor's primary result is non-nil; the suppressor's secondary results - newly masked / re-exposed members - in the opposite direction, bypassing the suppressor that already holds them) and the raw callbacks are invoked for nothing else; IP set deletion clears suppressor state and all trie maps", 9)
 	c.Rule("C04.contribsym", "E-FLOW", "keys of increments and decrements both originate from CalculateEndpointContribution", 5)
 	c.Rule("C04.candidates", "E-GUARD", "the scan strategy one label index offers for a restriction is adopted as the candidate scan only where, on every path, the other index's strategy for the same restriction was tested to be empty", 2)
 	c.Rule("C04.trieprefix", "E-FLOW/E-GUARD", "every ip.CIDRTrie function the overlap suppressor reaches lets branches/results depend on the queried CIDR's prefix length (not only Addr()/Version()); a boolean containment answer true is always preceded by such a test", 8)
 	c.Rule("C04.cached", "E-ORDER", "every increment site is dominated by recording the IP set id in the endpoint's cached matching-set collection", 2)
 
+	m := c04BuildModel(c)
+	c04WrapperRoles(c, m)
+	c04Suppressor(c, m, m.supT)
+	incs := c04Refcount(c, m)
+	c04WrapperCallers(c, m)
+	c04ContribSym(c, m, incs)
+	c04Candidates(c, m, m.idxT)
+	c04TriePrefix(c, m.supT)
+}
+
+// c04BuildModel resolves the anchors shared by the C04 families (also used by
+// C02, which arms the wrapper roles under its own id).
+func c04BuildModel(c *Ctx) *c04Model {
+	p := c.Load(c04Pkg)
 	m := &c04Model{c: c, p: p, pd: map[*ssa.Function]map[*ssa.BasicBlock]map[*ssa.BasicBlock]bool{}, addW: map[*ssa.Function]bool{}, remW: map[*ssa.Function]bool{}}
 	m.refFld, _ = p.LookupObj(c04Pkg, "ipSetData.memberToRefCount").(*types.Var)
 	if m.refFld == nil {
@@ -123,6 +148,7 @@ func runC04(c *Ctx) {
 	if supT == nil || idxT == nil {
 		c.Lost("OverlapSuppressor / SelectorAndNamedPortIndex")
 	}
+	m.supT, m.idxT = supT, idxT
 	ownerT := types.NewPointer(m.refFld.Pkg().Scope().Lookup("ipSetData").Type())
 	st := idxT.Type().Underlying().(*types.Struct)
 	for i := 0; i < st.NumFields(); i++ {
@@ -152,11 +178,7 @@ func runC04(c *Ctx) {
 	if len(m.addW) == 0 || len(m.remW) == 0 {
 		c.Lost("no function consulting OverlapSuppressor.Add (%d) / Remove (%d)", len(m.addW), len(m.remW))
 	}
-	c04Suppressor(c, m, supT)
-	incs := c04Refcount(c, m)
-	c04ContribSym(c, m, incs)
-	c04Candidates(c, m, idxT)
-	c04TriePrefix(c, supT)
+	return m
 }
 
 // supCalls: invoke-mode calls of OverlapSuppressor methods on the index's suppressor field.
@@ -382,126 +404,8 @@ func c04Refcount(c *Ctx, m *c04Model) []c04Inc {
 
 // -------------------------------------------------------------- suppressor --
 
-// c04FromSecondary: v derives (element of / wrapped by a constructor call) from
-// result #1 of the suppressor call sc.
-func c04FromSecondary(v ssa.Value, sc ssa.Value) bool {
-	seen := map[ssa.Value]bool{}
-	var walk func(v ssa.Value) bool
-	walk = func(v ssa.Value) bool {
-		if v == nil || seen[v] {
-			return false
-		}
-		seen[v] = true
-		switch x := v.(type) {
-		case *ssa.Extract:
-			return x.Index == 1 && x.Tuple == sc
-		case *ssa.UnOp:
-			if x.Op == token.MUL {
-				return walk(x.X)
-			}
-		case *ssa.IndexAddr:
-			return walk(x.X)
-		case *ssa.Index:
-			return walk(x.X)
-		case *ssa.MakeInterface:
-			return walk(x.X)
-		case *ssa.ChangeInterface:
-			return walk(x.X)
-		case *ssa.ChangeType:
-			return walk(x.X)
-		case *ssa.Call:
-			// value constructors of the ipsetmember package with a single argument
-			f := calleeOf(x.Common())
-			if f != nil && f.Pkg() != nil && strings.HasSuffix(f.Pkg().Path(), "labelindex/ipsetmember") && len(x.Common().Args) == 1 && !x.Common().IsInvoke() {
-				return walk(x.Common().Args[0])
-			}
-		}
-		return false
-	}
-	return walk(v)
-}
-
 func c04Suppressor(c *Ctx, m *c04Model, supT *types.TypeName) {
 	p := m.p
-	nRaw := 0
-	for _, f := range m.funcs {
-		allInstrs(f, false, func(fn *ssa.Function, in ssa.Instruction) {
-			ci, ok := in.(ssa.CallInstruction)
-			if !ok {
-				return
-			}
-			cc := ci.Common()
-			if cc.IsInvoke() || cc.StaticCallee() != nil {
-				return
-			}
-			fv := fieldVar(cc.Value)
-			if fv != m.cbAdd && fv != m.cbRem {
-				return
-			}
-			nRaw++
-			site := p.Pos(in.Pos())
-			key := fmt.Sprintf("C04.suppressor/raw/%s@%s", fv.Name(), fnName(fn))
-			scs := m.supCalls(fn)
-			var sc *CallSite
-			for i := range scs {
-				if n := scs[i].Callee.Name(); n == "Add" || n == "Remove" {
-					if sc != nil {
-						c.Undecided(key, site, "%s consults the suppressor more than once", fnName(fn))
-						return
-					}
-					sc = &scs[i]
-				}
-			}
-			if sc == nil || len(cc.Args) != 2 || len(fn.Params) < 3 {
-				c.Violate(key, site, "%s is invoked in %s, which does not consult OverlapSuppressor.Add/Remove: overlap suppression is bypassed (a member lying inside another is emitted, or a masked member is withdrawn)", fv.Name(), fnName(fn))
-				return
-			}
-			sameDir := (sc.Callee.Name() == "Add") == (fv == m.cbAdd)
-			scVal := sc.Instr.(ssa.Value)
-			memberParam := fn.Params[len(fn.Params)-1]
-			// the type assertion on the member parameter that selects CIDR members
-			isTA := func(v ssa.Value) *ssa.TypeAssert {
-				ex, ok := v.(*ssa.Extract)
-				if !ok {
-					return nil
-				}
-				ta, ok := ex.Tuple.(*ssa.TypeAssert)
-				if !ok || !ta.CommaOk || ta.X != memberParam {
-					return nil
-				}
-				return ta
-			}
-			taOK := func(want bool) EdgePred {
-				return func(cond ssa.Value, pol bool) bool {
-					ex, ok := cond.(*ssa.Extract)
-					return ok && ex.Index == 1 && isTA(cond) != nil && pol == want
-				}
-			}
-			// the suppressor must be consulted exactly for the asserted members
-			supGuarded := guardedCut(sc.Instr, taOK(true))
-			var how string
-			switch {
-			case sameDir && guardedCut(in, taOK(false)) && cc.Args[1] == ssa.Value(memberParam) && supGuarded:
-				how = "non-CIDR member passes through unchanged"
-			case sameDir && supGuarded && guardedCut(in, eqCond(false,
-				func(v ssa.Value) bool { ex, ok := v.(*ssa.Extract); return ok && ex.Index == 0 && ex.Tuple == scVal },
-				isNilConst)) && c04IsAsserted(cc.Args[1], isTA):
-				how = "emitted only when the suppressor's primary result is non-nil"
-			case !sameDir && supGuarded && c04FromSecondary(cc.Args[1], scVal):
-				how = "opposite-direction event for the suppressor's secondary results"
-			}
-			if how == "" {
-				c.Violate(key, site, "%s in %s (which consults suppressor.%s) is neither the pass-through of a non-CIDR member, nor guarded by the suppressor's primary result being non-nil, nor an opposite-direction event for its secondary results: suppressed/masked members are emitted wrongly",
-					fv.Name(), fnName(fn), sc.Callee.Name())
-				return
-			}
-			c.Ok(key, site, "%s (suppressor.%s)", how, sc.Callee.Name())
-		})
-	}
-	if nRaw == 0 {
-		c.Lost("no invocation of the raw OnMemberAdded/OnMemberRemoved callbacks")
-	}
-
 	// deleting an IP set clears its suppressor state
 	nDel := 0
 	for _, f := range m.funcs {
@@ -588,22 +492,6 @@ func c04Suppressor(c *Ctx, m *c04Model, supT *types.TypeName) {
 				"per-set map entry deleted by DeleteIPSet",
 				fmt.Sprintf("%s.DeleteIPSet does not delete the per-set entry of %s on every path: stale overlap state survives the IP set", namedTypeName(recv), fld.Name()))
 		}
-	}
-}
-
-func c04IsAsserted(v ssa.Value, isTA func(ssa.Value) *ssa.TypeAssert) bool {
-	for {
-		switch x := v.(type) {
-		case *ssa.MakeInterface:
-			v = x.X
-			continue
-		case *ssa.ChangeInterface:
-			v = x.X
-			continue
-		case *ssa.Extract:
-			return x.Index == 0 && isTA(v) != nil
-		}
-		return false
 	}
 }
 
